@@ -1390,7 +1390,14 @@ func (s *BgpServer) processRTCMembership(peer *peer, path *table.Path) {
 			peer.fsm.logger.Debug("Nothing sent in response to RT received. Waiting for RTC EOR.", slog.Any("Path", path))
 			return
 		}
-		filtered = s.processOutgoingPaths(peer, filtered, nil)
+		candidates := make([]*table.Path, 0, len(filtered))
+		for _, p := range filtered {
+			// already advertised on account of another membership: nothing to do
+			if !peer.hasPathAlreadyBeenSent(p) {
+				candidates = append(candidates, p)
+			}
+		}
+		filtered = s.processOutgoingPaths(peer, candidates, nil)
 		peer.updateRoutes(filtered...)
 		sendfsmOutgoingMsg(peer, filtered)
 	})
